@@ -343,7 +343,12 @@ func checkSnapshot(u *universe, s *core.VerifPoolSnapshot, at *block, quiescent 
 			add("qi-separation", "%x is in the Qi pool and in the Quai hash index", h)
 		}
 	}
+	// report structural findings before the nonce tracker (usually a consequence)
+	late := func(fp string) bool { return strings.Contains(fp, "nonce-tracker") }
 	sort.Slice(out, func(i, j int) bool {
+		if late(out[i].FP) != late(out[j].FP) {
+			return late(out[j].FP)
+		}
 		if out[i].FP != out[j].FP {
 			return out[i].FP < out[j].FP
 		}
